@@ -19,13 +19,13 @@ pub fn sources() -> Vec<(&'static str, &'static str)> {
         ("payable_function", "pragma solidity 0.8.19;\ncontract P14 {\n  function f() external {\n  }\n}\n"),
         ("private_constant", "pragma solidity 0.8.19;\ncontract P15 {\n  uint256 constant K = 1;\n}\n"),
         ("safe_math_pre_080", "pragma solidity 0.7.6;\ncontract P16 {\n  using SafeMath for uint256;\n  function f(uint256 a, uint256 b) internal pure returns (uint256) {\n    return a.add(b);\n  }\n}\n"),
-        ("safe_math_post_080", "pragma solidity 0.8.19;\ncontract P17 {\n  using SafeMath for uint256;\n  function f(uint256 a, uint256 b) internal pure returns (uint256) {\n    return a.sub(b);\n  }\n}\n"),
+        ("safe_math_post_080", "pragma abicoder v2;\npragma solidity 0.8.19;\ncontract P17 {\n  using SafeMath for uint256;\n  function f(uint256 a, uint256 b) internal pure returns (uint256) {\n    return a.sub(b);\n  }\n}\n"),
         ("shift_math", "pragma solidity 0.8.19;\ncontract P18 {\n  function f(uint256 a) internal pure returns (uint256) {\n    return a * 8;\n  }\n}\n"),
-        ("short_revert_string", "pragma solidity 0.8.0;\ncontract P19 {\n  function f(bool a) internal pure {\n    require(a, \"this revert string is longer than thirty-two bytes\");\n  }\n}\n"),
+        ("short_revert_string", "// SPDX-License-Identifier: MIT\npragma abicoder v1;\npragma solidity 0.8.0;\ncontract P19 {\n  function f(bool a) internal pure {\n    require(a, \"this revert string is longer than thirty-two bytes\");\n  }\n}\n"),
         ("solidity_keccak256", "pragma solidity 0.8.19;\ncontract P20 {\n  function f(bytes memory d) internal pure returns (bytes32) {\n    return keccak256(d);\n  }\n}\n"),
         ("solidity_math", "pragma solidity 0.8.19;\ncontract P21 {\n  function f(uint256 a, uint256 b) internal pure returns (uint256) {\n    return a - b;\n  }\n}\n"),
         ("sstore", "pragma solidity 0.8.19;\ncontract P22 {\n  uint256 s;\n  function f(uint256 v) internal {\n    s = v;\n  }\n}\n"),
-        ("string_errors", "pragma solidity 0.8.19;\ncontract P23 {\n  function f(bool a) internal pure {\n    require(a, \"no\");\n  }\n}\n"),
+        ("string_errors", "pragma experimental ABIEncoderV2;\npragma solidity 0.8.19;\ncontract P23 {\n  function f(bool a) internal pure {\n    require(a, \"no\");\n  }\n}\n"),
         ("unsafe_erc20_operation", "pragma solidity 0.8.19;\ncontract P24 {\n  function f(address t, address to, uint256 v) internal {\n    IERC20(t).transfer(to, v);\n  }\n}\n"),
         ("unprotected_selfdestruct", "pragma solidity 0.8.19;\ncontract P25 {\n  function kill(address payable to) external payable {\n    selfdestruct(to);\n  }\n}\n"),
         ("divide_before_multiply", "pragma solidity 0.8.19;\ncontract P26 {\n  function f(uint256 a, uint256 b, uint256 c) internal pure returns (uint256) {\n    return a / b * c;\n  }\n}\n"),
